@@ -384,13 +384,30 @@ def _exchange_code_for_token(
 # ---------------------------------------------------------------------------
 
 
+#: ASCII tab / LF / CR are removed from a URL by a browser before parsing it.
+_BROWSER_IGNORED = {0x09: None, 0x0A: None, 0x0D: None}
+#: C0 controls and space are stripped from both ends.
+_C0_OR_SPACE = "".join(map(chr, range(0x21)))
+
+
 def _validate_original_url(url: str, prefix: str) -> str:
     """Validate the original URL is relative and within the expected prefix."""
     if len(url) > _MAX_ORIGINAL_URL_LEN:
         url = url[:_MAX_ORIGINAL_URL_LEN]
-    parsed = urlparse(url)
+    try:
+        parsed = urlparse(url)
+    except ValueError:
+        return prefix or "/"
     if parsed.scheme or parsed.netloc:
         # Not a relative URL — fall back to the prefix root
+        return prefix or "/"
+    # ``urlparse`` is not how a browser reads a ``Location``: it ignores ASCII
+    # tab/newline and leading C0/space, treats "\" as "/", and skips any run of
+    # extra slashes before the host.  "/\evil.com", "\\evil.com" and
+    # "///evil.com" are therefore network-path references to ``evil.com`` even
+    # though ``urlparse`` sees no netloc in them.
+    seen = url.translate(_BROWSER_IGNORED).lstrip(_C0_OR_SPACE)
+    if len(seen) >= 2 and seen[0] in "/\\" and seen[1] in "/\\":
         return prefix or "/"
     if prefix and not url.startswith(prefix):
         return prefix or "/"
